@@ -147,15 +147,31 @@ func c12checkPrune(c *mc.Ctx, before *c12snapshot, db *stores.MemStore, rs *stor
 			return false
 		}
 	}
+	// tables that only removed commits referenced; objects they share with the table of a reachable
+	// commit are exempt even when that table object is absent (shallow commit: nobody can tell)
+	removedTables := map[int]bool{}
+	for i := range sums {
+		if reach&(1<<uint(i)) == 0 {
+			if _, was := before.keys["com/"+string(sums[i])]; was {
+				removedTables[tblOf[i]] = true
+			}
+		}
+	}
+	sharedWithReachable := map[string]bool{}
+	for ti := range keptTables {
+		for _, k := range pool[ti].keys {
+			sharedWithReachable[k] = true
+		}
+	}
 	for ti, pt := range pool {
-		if keptTables[ti] {
+		if keptTables[ti] || !removedTables[ti] {
 			continue
 		}
 		for _, k := range pt.keys {
 			if _, was := before.keys[k]; !was {
 				continue
 			}
-			if _, needed := mustKeep[k]; needed {
+			if _, needed := mustKeep[k]; needed || sharedWithReachable[k] {
 				continue // shared with a surviving table
 			}
 			if db.Raw(k) != nil {
